@@ -1,19 +1,11 @@
 package hist
 
 import (
-	"bytes"
-	"context"
 	"fmt"
-	"github.com/godaddy/asherah/go/appencryption"
 	"os"
-	"runtime"
-	"sync"
-	"sync/atomic"
 	"testing"
-	"time"
-	"verif/harness/probe"
-	"verif/harness/world"
 
+	"verif/harness/creators"
 	"verif/harness/ev"
 )
 
@@ -53,91 +45,7 @@ func TestC01(t *testing.T) {
 	r.Rule("seeded random histories (encrypt/store, decrypt/load through the same factory, another live factory or a brand-new one, session open/close, factory restart with a new cache policy, clock advances placed around precision / revoke-interval / lifetime boundaries, out-of-band revocation of latest and older IK/SK rows) over one monitored metastore+KMS inside a testing/synctest bubble; every decrypt is compared with the recorded payload and a final sweep decrypts every record through a fresh factory; two histories in five run over a DynamoDB plug-in on the semantic fake. Plus real-goroutine rounds in which 6 cold factories encrypt for the same new partition at once over each back end (their key inserts are held at a barrier so that they overlap) and a cold factory decrypts every record afterwards. A history is distinct+non-trivial when it produced more IK generations than partitions (a rotation happened) or contained a revocation.")
 	r.Assume("virtual clock = testing/synctest bubble", "in-memory metastore and static KMS stand in for real ones", "all factories of one world share expire/revoke/precision timing; cache configuration is drawn per factory")
 	runMany(t, r, ev.Pick(300, 2500), Params{Oracles: OC01, Steps: ev.Pick(80, 400), MaxFacts: 3, BigPayloads: ev.Thorough(), ClockBias: 15, RevokeBias: 8, LatencyPct: 8, FaultPct: 25}, 1)
-	concurrentCreators(t, r)
+	creators.Run(r, "C01", ev.Pick(60, 1200), journal)
 	r.Finish(t)
 }
 
-// concurrentCreators: several cold processes (factories) encrypt for one brand-new partition at the same moment,
-// with real goroutines over the real metastore implementation; the monitor's gate holds every key insert at a
-// barrier until all processes that are going to insert have arrived (or a short real-time wait is over - the wait
-// only tightens the overlap, it decides nothing). Every record returned must decrypt through a cold factory.
-func concurrentCreators(t *testing.T, r *ev.Run) {
-	rounds := ev.Pick(60, 1200)
-	const procs = 6
-	for _, be := range world.Backends {
-		w := world.NewOn("memguard", be)
-		w.MS.Drop, w.AEAD.Drop = true, true
-		w.Led.NoHash = true
-		var arrived atomic.Int32
-		w.MS.PreInner = func(c *probe.MSCall) {
-			arrived.Add(1)
-			for i := 0; i < 20000 && arrived.Load()%procs != 0; i++ {
-				runtime.Gosched()
-			}
-		}
-		ctx := context.Background()
-		cfg := world.Default(time.Hour, time.Hour, time.Minute)
-		type out struct {
-			d  *appencryption.DataRowRecord
-			pl []byte
-		}
-		bad := 0
-		for round := 0; round < rounds && bad < 3; round++ {
-			part := fmt.Sprintf("newpart-%d", round)
-			journal(fmt.Sprintf("C01 concurrent creators backend=%s round=%d", be, round))
-			arrived.Store(0)
-			outs := make([]out, procs)
-			facts := make([]*appencryption.SessionFactory, procs)
-			for i := range facts {
-				facts[i] = w.Factory(cfg, fmt.Sprintf("svc%d", round%3), "prod")
-			}
-			var wg sync.WaitGroup
-			start := make(chan struct{})
-			for i := 0; i < procs; i++ {
-				i := i
-				wg.Add(1)
-				go func() {
-					defer wg.Done()
-					s, err := facts[i].GetSession(part)
-					if err != nil {
-						return
-					}
-					defer s.Close()
-					<-start
-					pl := []byte(fmt.Sprintf("payload of process %d in round %d", i, round))
-					d, err := s.Encrypt(ctx, pl)
-					if err == nil {
-						outs[i] = out{d, pl}
-					} else {
-						r.Violation("encrypt-failed-without-fault", fmt.Sprintf("concurrent creators (%s), round %d: process %d: %v", be, round, i, err), nil)
-					}
-				}()
-			}
-			close(start)
-			wg.Wait()
-			for _, f := range facts {
-				f.Close()
-			}
-			cold := w.Factory(cfg, fmt.Sprintf("svc%d", round%3), "prod")
-			cs, _ := cold.GetSession(part)
-			for i, o := range outs {
-				if o.d == nil {
-					continue
-				}
-				got, err := cs.Decrypt(ctx, *world.CopyDRR(o.d))
-				r.Eval(1)
-				if err != nil || !bytes.Equal(got, o.pl) {
-					bad++
-					r.Violation("c01-decrypt-error", fmt.Sprintf("concurrent creators (%s), round %d: the record returned to process %d does not decrypt in a cold process: %v", be, round, i, err), map[string]any{"engine": "hist/concurrent-creators", "backend": be, "round": round})
-				}
-			}
-			cs.Close()
-			cold.Close()
-			r.Count("concurrent_creator_rounds", 1)
-		}
-		if a := w.Audit(); a != "" {
-			r.Violation("store-row-mutated", fmt.Sprintf("concurrent creators (%s): %s", be, a), nil)
-		}
-		w.Close()
-	}
-}
